@@ -4,7 +4,8 @@
 (* made on the real generator from a given state:                          *)
 (*    before   seed before the call (decimal digits; any 64-bit value, as  *)
 (*             given to randomize)                                         *)
-(*    sign     "pos" | "zero" | "neg"                                      *)
+(*    sign     the argument's name (Rng.tla ArgNames): 1, 0, -1, 0.5, -0.5,  *)
+(*             -0, 2^-20, 10^6, 1.5, NaN, +inf, -inf                       *)
 (*    err      the call returned an error                                  *)
 (*    num      result * 2^33 as decimal digits ("" if not an integer)      *)
 (*    after    generator state after the call (decimal digits)             *)
@@ -15,8 +16,6 @@ EXTENDS Rng, TLC, Json, IOUtils
 Rec == ndJsonDeserialize(IOEnv.TRACE)
 VARIABLES l
 vars == <<l>>
-
-ArgOf(sg) == CASE sg = "pos" -> NOne [] sg = "zero" -> NZero [] sg = "neg" -> NNeg(NOne)
 
 Judge(ev) ==
     LET s0 == SeedOf(BNFromDigits(ev.before))
